@@ -11,8 +11,8 @@ EXTENDS IntSize, Units, Json, SequencesExt
 
 CONSTANTS UnitsFile, Devs, Tier
 
-VARIABLES lowForm, upForm, flag, vs     \* vs = <<low value, up value>> or <<>>
-vars == <<lowForm, upForm, flag, vs>>
+VARIABLES lowForm, upForm, flag, vs, fmt     \* vs = <<low value, up value>> or <<>>; fmt: an OpenAPI-style `format` annotation
+vars == <<lowForm, upForm, flag, vs, fmt>>
 
 QuickLM == {Big(-1, 15, 0), Big(-1, 7, 0), Zero, Big(1, 7, 0), Big(1, 8, 0), Big(1, 15, 0), Big(1, 16, 0)}
 MoreLM  == {Big(-1, 63, 0), Big(-1, 31, 0), Big(1, 31, 0), Big(1, 32, 0), Big(1, 63, 0), Big(1, 64, 0)}
@@ -23,6 +23,16 @@ DocVals == {Plus(l, o) : l \in LM \ {Big(1, 63, 0), Big(1, 64, 0)}, o \in {-2, -
 InInt64(x) == NumLE(MinInt(64), x) /\ NumLE(x, MaxInt(64))
 
 Forms == {"none", "incl", "exnum", "exbool"}
+\* one side stated TWICE: inclusive bound v and a numeric exclusive bound at a fixed partner value just outside an
+\* 8-bit (A, B) or 16-bit (C) type: whichever is tighter decides, and a bound may be dropped only if the type implies it
+TwiceForms == {"inclexA", "inclexB", "inclexC"}
+Partner(form, lower) ==
+  CASE form = "inclexA" -> IF lower THEN Big(-1, 7, -1) ELSE Big(1, 8, 0)
+    [] form = "inclexB" -> IF lower THEN Plus(Zero, -1) ELSE Big(1, 7, 0)
+    [] form = "inclexC" -> IF lower THEN Big(-1, 15, -1) ELSE Big(1, 16, 0)
+SmallVals == {Zero, Big(-1, 7, 0), Big(1, 8, -1)}
+FmtLows == {Big(-1, 7, 0), Zero, Big(-1, 15, 0)}
+FmtUps  == {Big(1, 7, -1), Big(1, 8, -1), Big(1, 15, -1)}
 
 Side(form, v, lower) ==
   LET inc == IF lower THEN "minimum" ELSE "maximum"
@@ -31,9 +41,11 @@ Side(form, v, lower) ==
        [] form = "incl"   -> inc :> v
        [] form = "exnum"  -> exc :> [k |-> "n", h |-> v]
        [] form = "exbool" -> (inc :> v) @@ (exc :> [k |-> "b", b |-> TRUE])
+       [] form \in TwiceForms -> (inc :> v) @@ (exc :> [k |-> "n", h |-> Partner(form, lower)])
 
 Unit(lf, uf, fl, lv, uv) ==
   LET leaf == ("type" :> <<"integer">>) @@ Side(lf, lv, TRUE) @@ Side(uf, uv, FALSE)
+              @@ (IF fmt = "none" THEN <<>> ELSE "format" :> fmt)
       docs == SetToSeq({x \in DocVals : InInt64(x)})
       ty == MinIntType(PMin(leaf), PMax(leaf), PEx(leaf, "exclusiveMinimum"), PEx(leaf, "exclusiveMaximum"), {})
       \* a bound that is not removed is emitted as a constant compared with a field of the chosen type
@@ -74,10 +86,17 @@ DesignOK == Set => LET unit == u IN Agree(unit, {}) /\ TypeOK(unit, {})
 \* trace specification uses it directly, Trace_RT.ImplV)
 AsIsOK   == Set => LET unit == u IN (unit.opts.minSizedInts \/ Agree(unit, Devs))
 
-Init == lowForm \in Forms /\ upForm \in Forms /\ flag \in BOOLEAN /\ vs = <<>>
+Init == /\ lowForm \in Forms \cup TwiceForms /\ upForm \in Forms \cup TwiceForms /\ flag \in BOOLEAN /\ vs = <<>>
+        /\ fmt \in {"none", "int32", "int64"}
+        /\ (lowForm \in TwiceForms => upForm \in {"none", "incl"}) /\ (upForm \in TwiceForms => lowForm \in {"none", "incl"})
+        /\ (fmt # "none" => lowForm = "incl" /\ upForm = "incl")
+Twice == lowForm \in TwiceForms \/ upForm \in TwiceForms
 Pick == /\ vs = <<>>
-        /\ vs' \in (IF lowForm = "none" THEN {Zero} ELSE BoundVals) \X (IF upForm = "none" THEN {Zero} ELSE BoundVals)
-        /\ UNCHANGED <<lowForm, upForm, flag>>
+        /\ vs' \in (IF lowForm = "none" THEN {Zero} ELSE IF fmt # "none" THEN FmtLows
+                     ELSE IF Twice /\ lowForm \notin TwiceForms THEN SmallVals ELSE BoundVals)
+                 \X (IF upForm = "none" THEN {Zero} ELSE IF fmt # "none" THEN FmtUps
+                     ELSE IF Twice /\ upForm \notin TwiceForms THEN SmallVals ELSE BoundVals)
+        /\ UNCHANGED <<lowForm, upForm, flag, fmt>>
 Next == Pick
 Spec == Init /\ [][Next]_vars
 
